@@ -472,6 +472,19 @@ func (g *genState) shadowWrite() []Msg {
 	}
 }
 
+// closeWithin reports whether a slash window closes in one of the next n blocks (the first tally at or after a
+// multiple of the window)
+func (g *genState) closeWithin(n int64) bool {
+	p := int64(g.h.Genesis.VotePeriod)
+	w := int64(g.h.Genesis.Window)
+	for h := g.height; h <= g.height+n; h++ {
+		if h%(2*p) == 2*p-1 && h >= w && h%w < 2*p {
+			return true
+		}
+	}
+	return false
+}
+
 func (g *genState) stranger() int {
 	return g.users[len(g.users)-1-g.r.Intn(2)]
 }
@@ -721,7 +734,10 @@ func (g *genState) block() {
 				envs = append(envs, Env{Kind: "undelegate", Val: v, Amount: "0"}) // 0 = everything
 				g.gone[v] = true
 				g.jailed[v] = true
-			} else if g.h.Genesis.Powers[v]-g.taken[v] >= 2 {
+			} else if g.h.Genesis.Powers[v]-g.taken[v] >= 2 && !g.closeWithin(3) {
+				// x/staking slashes unbonding entries younger than the infraction height (h-2) in place of validator tokens:
+				// the model's "tokens -= min(tokens, trunc(power * 10^6 * fraction))" is staking's rule only when no such
+				// entry exists, so partial undelegations keep clear of the next closing of a slash window
 				envs = append(envs, Env{Kind: "undelegate", Val: v, Amount: "1000000"}) // one unit of power
 				g.taken[v]++
 			}
